@@ -256,6 +256,8 @@ type ww struct {
 	fail   *hx.Failure
 	got    []string
 	inCall string
+	// the rendering of every row at the previous Show/Sync
+	lastRows [][]lm.Glyph
 }
 
 func (w *ww) failf(tag, format string, args ...interface{}) {
@@ -354,6 +356,15 @@ func (w *ww) checkDraws(when string) {
 				}
 			}
 		}
+		// a cell whose appearance changed although nothing was stored in it:
+		// the column a wide rune newly covers, or no longer covers because the
+		// rune itself became hidden under another one
+		if !ok && y < len(w.lastRows) && x < len(w.lastRows[y]) {
+			was, now := w.lastRows[y][x], m.Row(y)[x]
+			if was.R != now.R || was.Hidden != now.Hidden || was.Width != now.Width || was.X != now.X || string(was.Comb) != string(now.Comb) || was.St != now.St {
+				ok = true
+			}
+		}
 		if m.At(x, y).Locked {
 			w.failf("C19/extra-draw", "%s: locked cell (%d,%d) was drawn", when, x, y)
 			return
@@ -372,6 +383,10 @@ func (w *ww) afterShow(kind string, full bool) {
 		w.checkDraws("after " + kind)
 	}
 	w.pg.draws = w.pg.draws[:0]
+	w.lastRows = w.lastRows[:0]
+	for y := 0; y < w.m.H; y++ {
+		w.lastRows = append(w.lastRows, w.m.Row(y))
+	}
 	for i := range w.m.Cells {
 		if !w.m.Cells[i].Locked {
 			w.m.Cells[i].Dirtied = false
